@@ -283,7 +283,7 @@ package aggregate
 //@   at aggregate.(*scalarTable).addSample assert[C04] every-sample-added-with-its-own-series: $ts == vector.T && $sampleID == vector.SampleIDs[i] && $sample == vector.Samples[i]
 //@   ghostvar nadded int = 0
 //@   after aggregate.(*scalarTable).addSample set nadded = nadded + 1
-//@   ensures[C04] every-sample-added: ncalls("aggregate.(*scalarTable).reset") == 1 && nadded == len(vector.Samples)
+//@   ensures[C04,C07] reset-exactly-once-and-every-sample-added: ncalls("aggregate.(*scalarTable).reset") == 1 && nadded == len(vector.Samples)
 //@   loop 0 invariant tableInv(t) && nadded == rangeindex + 1 && (rangeindex + 1 == 0 || t.timestamp == vector.T) && t.timestamp == vector.T
 //@ func (*scalarTable).toVector
 //@   requires tableInv(t) && pool != nil && preexisting(t.inputs)
